@@ -431,6 +431,7 @@ struct Case {
 	AConfig cfg;
 	std::vector<std::string> defects;
 	std::string desc;
+	bool bom_name = false;      // the leaf name is the server name (or its wildcard form) preceded by U+FEFF
 };
 
 static Case generate(Tape &t)
@@ -554,11 +555,20 @@ static Case generate(Tape &t)
 		case 20: {   // name with an embedded NUL / longer name sharing a prefix
 			ACert &e = C.chain[0];
 			Bytes nm = xl::B(C.cfg.server_name);
-			if (t.flag()) { nm.push_back(0); nm.push_back('x'); } else nm.push_back('x');
+			unsigned how = t.u8() % 4;
+			if (how == 1) { nm.push_back(0); nm.push_back('x'); }
+			else if (how == 3) {
+				// U+FEFF in front: not the same name (and, in a dNSName, not even an IA5String)
+				std::string h = C.cfg.server_name;
+				if (t.flag() && h.find('.') != std::string::npos) h = "*." + h.substr(h.find('.') + 1);
+				nm = { 0xEF, 0xBB, 0xBF };
+				nm.insert(nm.end(), h.begin(), h.end());
+				C.bom_name = true;
+			} else nm.push_back('x');
 			bool put = false;
 			for (auto &x : e.exts) if (x.kind == X_SAN) { for (auto &g : x.names) if (g.tag == 0x82) { g.value = nm; put = true; } }
 			if (!put) for (auto &rdn : e.subject.rdns) for (auto &a : rdn) if (a.oid == xl::OID_CN) { a.value = nm; a.tag = xl::T_UTF8; }
-			C.defects.push_back("leaf name = server name + extra bytes"); break;
+			C.defects.push_back(C.bom_name ? "leaf name = U+FEFF + server name" : "leaf name = server name + extra bytes"); break;
 		}
 		case 21: {   // several names: the matching one is not the first
 			ACert &e = C.chain[0];
@@ -622,6 +632,14 @@ static void check_case(Case &C, Tape &t)
 		// listed finding: the configured minimum is stored as a signed difference from 128 and read back unsigned
 		stats.known_finding("x509-minrsa-below-128", fmt("br_x509_minimal_set_minrsa(%d): every RSA key is rejected as too weak", C.cfg.min_rsa));
 		stats.excluded++;
+		stats.eval();
+		return;
+	}
+	if (C.bom_name && lib.err == 0 && ref.err == BR_ERR_X509_BAD_SERVER_NAME && known("bom-stripped-before-name-match")) {
+		stats.known_finding("bom-stripped-before-name-match", "a leaf whose dNSName (or UTF8String CN) is the bytes EF BB BF followed by the expected server name (or by a '*.' pattern matching it) is ACCEPTED for that server name: "
+			"encode-UTF8 in asn1.t0 drops a leading U+FEFF before the comparison (and before the name element is reported)");
+		stats.excluded++;
+		stats.cls("known:bom-name");
 		stats.eval();
 		return;
 	}
